@@ -32,7 +32,7 @@ func hexOf(out string) ([]byte, bool) {
 }
 
 func run(r *core.Run) {
-	r.Rule = "plaintexts of boundary and random lengths from six content classes (random, tag runs, fake headers, embedded envelopes) × both envelopes × key histories of length 1–4 × entry points (library, registry handler, column detector with/without the bare-envelope wrapper) × junk prefixes/suffixes; the eight AcraTranslator operations through the real TranslatorService (round trips incl. hash passed separately or concatenated, client-id / additional-context / missing-key requests); every protecting entry point × every revealing entry point on the same plaintext; non-trivial = a protect call that produced an envelope; distinct by (entry point, kind, plaintext)"
+	r.Rule = "plaintexts of boundary and random lengths from six content classes (random, tag runs, fake headers, embedded envelopes) × both envelopes × key histories of length 1–4 × entry points (library, registry handler, column detector with/without the bare-envelope wrapper) × junk prefixes/suffixes; the eight AcraTranslator operations through the real TranslatorService (round trips incl. hash passed separately or concatenated, client-id / additional-context / missing-key requests); every protecting entry point × every revealing entry point on the same plaintext; the searchable column write path with values that arrive already protected (serialized container of every producer, bare AcraStruct, bare AcraBlock) through the real SearchableDataEncryptor and back through one hmac.Processor around the detector chain; non-trivial = a protect call that produced an envelope; distinct by (entry point, kind, plaintext)"
 	rd := r.Rand
 	lens := append([]int{}, env.Lens...)
 	for i := 0; i < r.N(40, 1500); i++ {
@@ -139,6 +139,7 @@ func run(r *core.Run) {
 	}
 	translatorOps(r)
 	crossEntryPoints(r)
+	searchableWrite(r)
 	// empty plaintext cannot be protected: error, never a value
 	r.Begin("empty-plaintext", true, "class:empty")
 	kv := env.NewKV(rd, 1, 1)
